@@ -16,11 +16,21 @@ CLAIMS = {
         note=TRUST + 'hash-consing identity (C07) lets equal ids share attributes; LoopRange operations have their C15 meaning',
         tech='match-arm term-tree summaries from abstract interpretation of MIR, compared with spec tables modulo algebraic normal forms and propositional equivalence',
         ref='5.C01'),
+    'C02': dict(
+        text='static (call-log rules): compile_with_bound is interpreted with every callee uninterpreted and each loop iteration inspected: every range edge is add_transition(popped.expr, set, d.expr) with set an item of popped.char_ranges() and d = set_derivative_unchecked(popped, set), pushed on the queue, with no other builder call; the complement edge is registered exactly when not empty_complement(popped), from class_derivative_unchecked(popped, Complement); mark_final exactly when popped.nullable; stepping functions next/class_next/str_next/accepts against their table. Shares the derivative table and uniformity rule (C03), the partition rules (C11), and the builder/cleanup/state-assembly rules (C13). Language equality as such is not decided.',
+        note=TRUST + 'panics of class_next are only bounds/unwrap on ill-formed automata (ids < num_states and default present whenever the complement is non-empty are data invariants established by the builder rules)',
+        tech='abstract interpretation with all callees uninterpreted; per-iteration call-log dataflow rules; match-arm tables',
+        ref='5.C02'),
     'C03': dict(
         text='static (engine E4): every arm of compute_derivative is summarised as a term tree and must equal the Brzozowski rule of its variant with all child derivatives taken for the same character; uniformity: the children an arm consults are children whose partitions BaseRegLan::deriv_class merges under the same guards, the character flows only into derivatives/contains, RE::make stores deriv_class of its own key; cache discipline of cached_deriv/deriv; BadClassId validation in class_derivative/start_class; set_derivative goes through class_of_set and propagates its error; str_derivative/str_in_re fold; plus the C11 partition rules (class_of_char, interval_cover) on which the class/ambiguity clauses rest.',
         note=TRUST + 'that the manager constructors used in the rules preserve languages is C01; textbook rule = specification (a different but equivalent derivative rule would be reported as table-mismatch)',
         tech='match-arm term-tree summaries compared with the Brzozowski table; consult-set/class-set inclusion; call-log dataflow for the cache',
         ref='5.C03'),
+    'C05': dict(
+        text='static (call-log rules): is_empty_re is exactly "no nullable term among iter_derivatives(e)"; get_string_path tests nullability of the popped term before expanding it, returns the path of that same term, and pushes (popped, cid, class_derivative_unchecked(popped, cid)) for the class ids of the popped term; get_string maps each path element to the representative of its own (term, class) and converts through the sanitising constructor; LabeledQueue first-visit rule, root edge, front pop, predecessor walk and single reversal. Exactness then follows from C01/C03/C19.',
+        note=TRUST + 'pick_in_class and class id iteration are decided under C11; derivative exactness under C03',
+        tech='abstract interpretation with callees uninterpreted; per-iteration call-log dataflow rules',
+        ref='5.C05'),
     'C06': dict(
         text='static: the index guards of str_at/str_substr/str_indexof/str_len/str_concat and the wrappers are decided by abstract interpretation on all paths in both build configurations, results compared as sequence contents with the SMT-LIB table; naive_search is proved to return the leftmost occurrence at or after the start index by loop invariants over ghost predicates (match-so-far, no-earlier-occurrence) inferred as an inductive fixpoint; str_replace/str_replace_all are checked by splice/step obligations against the search result; vector_prefix/suffix by a prefix-match ghost predicate. No panic other than the documented over-length panic, no wrapping arithmetic or truncating cast.',
         note=TRUST + 'assumes the SmtString invariant (length <= i32::MAX, elements <= MAX_CHAR) for arguments; ghost-predicate axioms are the definitional unfoldings stated in smtlint/rules/c06.py',
@@ -36,6 +46,11 @@ CLAIMS = {
         note=TRUST + 'assumes the SmtString invariant for arguments; i32::to_string is trusted (std); the round trips follow from the tables on paper',
         tech='abstract interpretation of MIR in two build configurations with inferred inductive loop invariants over ghost predicates; arithmetic-discipline obligations (no unproved wrap/truncation)',
         ref='5.C09'),
+    'C10': dict(
+        text='static: naive_re_search is proved leftmost-then-shortest by inferred loop invariants over ghost predicates (running derivative of the matched substring, no shorter match at the position, no earlier start position; the empty-term break only skips dead extensions); the early empty match is returned exactly when allowed and the pattern is nullable; NotFound only after every start position is dead; str_replace_re / str_replace_re_all drive it with the right start/allow_empty arguments, resume at the end of the match, and splice exactly around the reported match through the sanitising conversions.',
+        note=TRUST + 'nullable derivative = membership is C01/C03; the derivative of the empty term stays empty (C03.R1)',
+        tech='abstract interpretation of MIR with inferred inductive loop invariants over ghost predicates; call-log rules for the drivers; sequence-content comparison for the splices',
+        ref='5.C10'),
     'C11': dict(
         text='static: interval_cover and class_of_char are interpreted with inferred binary-search invariants; every leaf must entail the set-theoretic meaning of the class it returns for a generic interval index under the partition invariant (sorted, disjoint); comp_witness maintenance in push/from_set, empty_complement, num_classes, valid_class_id, pick_in_class, both iterators and the class_of_set/good_char_set mappings are decided per leaf in both configurations.',
         note=TRUST + 'assumes the CharPartition invariant for `self` (sorted disjoint well-formed intervals, witness <= next start) and documented preconditions of push',
@@ -46,6 +61,11 @@ CLAIMS = {
         note=TRUST + 'assumes the CharPartition invariant of both arguments and the contract of CharPartition::get/push (checked under C11)',
         tech='abstract interpretation of MIR with an inferred inductive loop invariant (ghost last-emitted end), per-iteration step obligations decided by the in-checker linear-arithmetic procedure',
         ref='5.C12'),
+    'C13': dict(
+        text='static: an effect summary finds the functions that rewrite a state specification (cleanup, choose_default_successor, remove_transitions_to_default); in build, when the first of them is reached the path must already carry make_partition(unmodified state) = Ok and the completeness fact (default declared or complement empty) - validate before mutate; cleanup only relabels (default chosen only when undeclared, from an existing target - ghost predicate through the majority loop; retain keeps exactly transitions not to the default); every State is assembled from the partition/successors/default/finality of its own cleaned state with its enumerate index as id; make_successor stores each target under the class of its own set; get_state_id/new/mark_final/add_transition/set_default_successor bookkeeping.',
+        note=TRUST + 'try_from_iter (disjointness) is the partition constructor decided under C11',
+        tech='effect summary over the call graph + abstract interpretation with callees uninterpreted (must-precede as path facts at the call site), ghost-predicate loop invariant for the majority vote',
+        ref='5.C13'),
     'C15': dict(
         text='static: every LoopRange method is abstractly interpreted on all paths in both build configurations (ranges split into finite/infinite cases); each leaf must entail the set-level spec of the returned range (start, finiteness, end as normalised polynomials), panics are allowed exactly in the documented overflow region, nothing may wrap; right_mul_is_exact must equal the interval criterion whose correctness is argued on paper in the rule header.',
         note=TRUST + 'assumes start<=end for finite ranges; product monotonicity is the only non-linear lemma used by the decision procedure',
@@ -66,6 +86,11 @@ CLAIMS = {
         note=TRUST + 'Loop rule exact because no loop term has range [0,0] (C01.R7); derivative/emptiness exactness is C03/C05',
         tech='match-arm summaries compared with exact recurrences by propositional equivalence (in-checker decision procedure)',
         ref='5.C18'),
+    'C19': dict(
+        text='static: in compile_with_bound the counter is shown to equal the number of successful pops (starts at 0, every continuing iteration has exactly one successful pop, adds exactly one and runs below the bound); None inside the loop only when a term is popped with the counter equal to the bound, Some only when the queue is exhausted, 0 gives None; DerivativeIterator::next pops, pushes the class derivative of the popped term for every class id of that term and yields it; BfsQueue enqueues exactly unseen elements and pops from the front; compile/try_compile plumbing. Termination (finiteness of the derivative set) is not decided.',
+        note=TRUST + 'distinctness of queue elements rests on hash-consing (C07)',
+        tech='abstract interpretation with callees uninterpreted; per-iteration call-log rules with path facts',
+        ref='5.C19'),
     'C20': dict(
         text='static: every CharSet method is abstractly interpreted on all paths in both build configurations; each leaf must entail the set-theoretic spec of the value it returns; no leaf may panic; no arithmetic may wrap. Decides the interval algebra for all inputs satisfying the CharSet invariant.',
         note=TRUST + 'assumes start<=end<=MAX_CHAR for CharSet arguments',
